@@ -1,9 +1,10 @@
-use rusty_parser::{AsBareName, Expression};
+use rusty_parser::{AsBareName, Expression, TypeQualifier};
 
 use super::expression_reducer::*;
 use crate::core::{LintErrorPos, LinterContext, binary_cast};
 
-/// Finds undefined functions and converts them to zeroes.
+/// Finds undefined functions and converts them to the zero value of their type
+/// (zero for numeric functions, the empty string for string functions).
 pub struct UndefinedFunctionReducer<'a> {
     pub linter_context: &'a LinterContext,
 }
@@ -32,7 +33,16 @@ impl<'a> ExpressionReducer for UndefinedFunctionReducer<'a> {
                     ))
                 } else {
                     // the user_defined_function_linter already ensures that the args are valid
-                    Ok(Expression::IntegerLiteral(0))
+                    // the literal must have the type that was checked for the function call
+                    Ok(match name.qualifier() {
+                        Some(TypeQualifier::DollarString) => {
+                            Expression::StringLiteral(String::new())
+                        }
+                        Some(TypeQualifier::BangSingle) => Expression::SingleLiteral(0.0),
+                        Some(TypeQualifier::HashDouble) => Expression::DoubleLiteral(0.0),
+                        Some(TypeQualifier::AmpersandLong) => Expression::LongLiteral(0),
+                        _ => Expression::IntegerLiteral(0),
+                    })
                 }
             }
             Expression::BuiltInFunctionCall(name, args) => Ok(Expression::BuiltInFunctionCall(
